@@ -12,5 +12,5 @@ def replay(d):
 
 
 def check(run):
-    run.deductive(PC.MODULES)
+    PC.deductive(run)
     PC.bounded_rows(run, "declined-rows-untouched", _row)
